@@ -1,65 +1,26 @@
 """C03 - call-path selectors fire once per way the path matches the live call stack."""
-import json
-import random
+from .. import scripts, sel as S, worldcheck as W, worldprops as P
 
-from .. import core, scripts, sel as S, worldcheck as W
+PLAN = {"quick": [("overlay", 240), ("probe", 120)], "thorough": [("overlay", 5000), ("probe", 2000)]}
 
 
-def gen_cases(rng, n, start, maxlen, nsel, maxdepth):
-    cases = []
-    for i in range(n):
-        sc = scripts.gen_script(rng, maxlen=rng.randint(5, maxlen), maxdepth=maxdepth, p_call=0.4,
-                                reads=False, aug=True, ann=True)
-        hs = []
-        for _ in range(nsel):
-            s = S.gen_sel(rng, names=("a", "b", "p", "c", "i"), maxdepth=rng.choice([2, 3, 3, 4]))
-            hs.append(W.norm_handler({"kind": "imm", "sel": s}))
-        cases.append({"id": start + i, "script": sc, "arg": 0, "handlers": hs})
-    return cases
+def gen_case(rng, cid, mode):
+    sc = scripts.gen_script(rng, maxlen=rng.randint(5, 45), maxdepth=5, p_call=0.4, reads=False,
+                            fns=rng.choice(["fgh", "fg", "fh", "f"]))
+    fns = P.script_fns(sc)
+    hs = []
+    for _ in range(4):
+        s = S.gen_sel(rng, fns=fns, names=("a", "b", "p", "c", "i"), maxdepth=rng.choice([2, 3, 3, 4]))
+        hs.append(W.norm_handler({"kind": "imm", "sel": s}))
+    return {"id": cid, "script": sc, "arg": 0, "handlers": hs}
 
 
 def run(out, tier, seed):
-    rng = random.Random(seed * 7919 + 3)
-    n_ov, n_pr = (240, 120) if tier == "quick" else (4000, 1500)
-    maxlen = 40 if tier == "quick" else 60
-    work = core.scratch("c03-")
-    batches = []
-    per = 60 if tier == "quick" else 250
-    cid = 0
-    for mode, n in (("overlay", n_ov), ("probe", n_pr)):
-        left = n
-        while left > 0:
-            k = min(per, left)
-            batches.append((mode, gen_cases(rng, k, cid, maxlen, 4, 5)))
-            cid += k
-            left -= k
-    all_cases = {c["id"]: (m, c) for m, cs in batches for c in cs}
-    traces = W.run_cases(batches, work, par=12)
-    fails, results = W.validate(traces, work, par=12)
-    for i, r in enumerate(results):
-        out.add_tlc(f"TracePtera[{i}]", r)
-    out.traces += len(traces)
-    W.judge(out, traces, fails, lambda tid: {"mode": all_cases[tid][0], **all_cases[tid][1]})
-    ndlv = sum(len(e["dlv"]) for t in traces for e in t["events"])
-    multi = sum(1 for t in traces for e in t["events"] if len(e["dlv"]) > 1)
-    out.extra.update({"deliveries_checked": ndlv, "events_with_several_embeddings_or_handlers": multi,
-                      "events": sum(len(t["events"]) for t in traces),
-                      "rule": "random call trees over f,g,h (depth<=5, loops, catches) x 4 focused selectors each "
-                              "(focus path<=4, off-path kids, aliases); overlay mode and probing() mode"})
-    t0 = traces[0]
-    out.samples.append({"script": all_cases[t0["id"]][1]["script"][:12],
-                        "selectors": [S.sel_str(h["sel"]) for h in t0["handlers"]],
-                        "verdict": "accepted" if t0["id"] not in fails else "rejected"})
+    P.run_world(out, tier, seed, gen_case, PLAN, salt=3,
+                rule="random call trees over f,g,h (depth<=5, recursion, loops, catches) x 4 focused selectors each "
+                     "(focus path<=4, off-path kids, aliases), overlay mode and probing() mode; every delivery compared, "
+                     "per causing event and per handler, with the bag of embeddings owed by PteraAbs",
+                sample_filter=lambda t: sum(len(e["dlv"]) for e in t["events"]) > 3)
 
 
-def replay(out, path):
-    payload = json.load(open(path))["case"]["case"]
-    mode = payload.pop("mode")
-    work = core.scratch("c03r-")
-    traces = W.run_cases([(mode, [payload])], work, par=1)
-    fails, results = W.validate(traces, work, par=1)
-    for r in results:
-        out.add_tlc("TracePtera[replay]", r)
-    out.traces += 1
-    W.judge(out, traces, fails, lambda tid: {"mode": mode, **payload})
-    out.samples.append({"replayed": path, "fails": {str(k): v for k, v in fails.items()}})
+replay = P.replay_world
